@@ -85,6 +85,11 @@ func runEmit(prop string) int {
 		checkSamplerInventory(r)
 		fmt.Println("C07: wrote sampler inventory")
 	}
+	if prop == "C02" {
+		if err := r.EmitGuardRef("C02_admission_guards.json", c02Admission); err != nil {
+			fmt.Fprintln(os.Stderr, err)
+		}
+	}
 	if len(spec.Scope.Include) > 0 && prop != "C12" {
 		r.EmitCondRef(prop+"_conds.json", spec.Scope)
 		fmt.Println(prop + ": wrote branch-condition reference")
